@@ -268,14 +268,19 @@ def hexfExp : List Nat → Nat → Bool → Bool → Option (Option Nat)
       else hexfExp rest e true accNonZero
     else none
 
+/-- `u64::trailing_zeros` of a non-zero value below `2^fuel` -/
+def trailingZeros : Nat → Nat → Nat
+  | 0, _ => 0
+  | fuel + 1, n => if n % 2 = 1 then 0 else 1 + trailingZeros fuel (n / 2)
+
 /-- `convert_hexf64`: exact conversion or `none` (INEXACT).  The product
     `mantissa as f64 * 2f64.powf(exponent)` is exact whenever the checks pass. -/
 def hexfConvert (neg : Bool) (mantissa : Nat) (exponent : Int) : Option Nat :=
   if exponent < -0xffff ∨ exponent > 0xffff then none
   else if mantissa = 0 then some (if neg then 2 ^ 63 else 0)
   else
-    -- strip trailing zero bits
-    let tz := (List.range 64).find? (fun k => (mantissa / 2 ^ k) % 2 = 1) |>.getD 0
+    -- strip trailing zero bits (`u64::trailing_zeros`)
+    let tz := trailingZeros 64 mantissa
     let m := mantissa / 2 ^ tz
     let e := exponent + tz
     let normalexp := e + (Nat.log2 m : Int)
@@ -377,5 +382,15 @@ def DecFacts (bits : Nat) : Prop :=
 
 instance (bits : Nat) : Decidable (FracDigits bits) := by unfold FracDigits; infer_instance
 instance (bits : Nat) : Decidable (DecFacts bits) := by unfold DecFacts; infer_instance
+
+/-- What the hex round trip needs from hexf's conversion (`convert_hexf64`), per double: the
+    mantissa/exponent pair that the scanner recovers from `to_hex`'s text (the integer mantissa with
+    `k` trailing zero hex digits dropped) converts exactly to the double.  Evaluated on every
+    sampled double by the check (driver op `hexfacts`), not proved in general. -/
+def HexFacts (bits : Nat) : Prop :=
+  ∀ k : Nat, k ≤ 13 → (integerDecode bits).1 % 16 ^ k = 0 →
+    hexfConvert (isNeg bits) ((integerDecode bits).1 / 16 ^ k) ((integerDecode bits).2 + 4 * (k : Int)) = some bits
+
+instance (bits : Nat) : Decidable (HexFacts bits) := by unfold HexFacts; infer_instance
 
 end PV.C17
